@@ -199,6 +199,45 @@ func methodName(f *ssa.Function) string {
 	return n
 }
 
+// loadCallsOf returns the atomic Load calls a (map) value originates from.
+func loadCallsOf(v ssa.Value) []*ssa.Call {
+	var out []*ssa.Call
+	seen := map[ssa.Value]bool{}
+	var walk func(ssa.Value)
+	walk = func(v ssa.Value) {
+		if v == nil || seen[v] {
+			return
+		}
+		seen[v] = true
+		switch x := v.(type) {
+		case *ssa.Call:
+			if f := staticCallee(x.Common()); f != nil && methodName(f) == "Load" {
+				out = append(out, x)
+			}
+		case *ssa.TypeAssert:
+			walk(x.X)
+		case *ssa.Extract:
+			walk(x.Tuple)
+		case *ssa.Phi:
+			for _, e := range x.Edges {
+				walk(e)
+			}
+		case *ssa.UnOp:
+			if vals, ok := localStored(x); ok {
+				for _, s := range vals {
+					walk(s)
+				}
+			} else {
+				walk(x.X)
+			}
+		case *ssa.ChangeType:
+			walk(x.X)
+		}
+	}
+	walk(v)
+	return out
+}
+
 // recvTypeOf returns the receiver type of a method, also for instantiations of generic methods
 // (whose SSA signature carries the receiver as first parameter).
 func recvTypeOf(f *ssa.Function) types.Type {
@@ -498,6 +537,28 @@ func runCOW(c *core.Ctx) []core.Obligation {
 			b.bad(key+":mutex", c.InstrPos(s.call), fmt.Sprintf("%s publishes %s without holding a mutex: %s", shortName(s.fn), gname, why))
 		}
 		if lock != nil {
+			// the snapshot copied into the new map must have been loaded under the lock
+			for _, blk := range s.fn.Blocks {
+				for _, in := range blk.Instrs {
+					var src ssa.Value
+					switch x := in.(type) {
+					case *ssa.Range:
+						src = x.X
+					case *ssa.Call:
+						if n := calleeName(x.Common()); strings.HasPrefix(n, "maps.Copy") && len(x.Common().Args) == 2 {
+							src = x.Common().Args[1]
+						}
+					}
+					if src == nil || !loaded[src] {
+						continue
+					}
+					for _, ld := range loadCallsOf(src) {
+						if !instrDominates(lock, ld) {
+							b.bad(key+":snapshot-under-lock", c.InstrPos(in), fmt.Sprintf("%s builds the map it publishes from a snapshot loaded at %s, before taking the mutex: entries published by a concurrent miss in between are lost, so the same Go type is later mapped to a different value", shortName(s.fn), c.InstrPos(ld)))
+						}
+					}
+				}
+			}
 			k2 := key + ":mutex"
 			if instrDominates(lock, s.call) && deferredUnlock {
 				b.ok(k2, c.InstrPos(lock), "Store dominated by Lock with deferred Unlock")
